@@ -56,7 +56,9 @@ def generateIntrospectionXML(objectPath, exportedObjects):
     for path in exportedObjects.keys():
         if path.startswith(objectPath):
             path = path[len(objectPath):].partition('/')[0]
-            if path not in matches:
+            # the object itself ("/" is the only path ending in "/") is not
+            # one of its own children
+            if path and path not in matches:
                 matches.append(path)
 
     if obj is None and not matches:
